@@ -101,10 +101,10 @@ def make_controller(ift, kind, level, limit):
     return ift.StochasticAbsDeltaEnergyController(tol, convergence_level=level, iteration_limit=limit, memory_length=3), tol
 
 
-def cg_run(ift, rng, n, cond, cplx, prec, nreset, kind, level, limit, zero_start):
+def cg_run(ift, rng, n, cond, cplx, prec, nreset, kind, level, limit, zero_start, scale=1.):
     dom = ift.makeDomain(ift.UnstructuredDomain(n))
     A = hpd(rng, n, cond, cplx)
-    b = rng.normal(size=n) + (1j * rng.normal(size=n) if cplx else 0)
+    b = scale * (rng.normal(size=n) + (1j * rng.normal(size=n) if cplx else 0))
     log = dict(napply=0, first=None)
 
     class Mat(ift.EndomorphicOperator):
@@ -174,7 +174,7 @@ def cg_run(ift, rng, n, cond, cplx, prec, nreset, kind, level, limit, zero_start
             return st
     op = Mat()
     bf = ift.makeField(dom, b)
-    x0 = np.zeros(n, dtype=b.dtype) if zero_start else 0.1 * (rng.normal(size=n) + (1j * rng.normal(size=n) if cplx else 0))
+    x0 = np.zeros(n, dtype=b.dtype) if zero_start else 0.1 * scale * (rng.normal(size=n) + (1j * rng.normal(size=n) if cplx else 0))
     E = ift.QuadraticEnergy(ift.makeField(dom, x0), op, bf)
     log["napply"], log["first"] = 0, None
     P = ift.makeOp(ift.makeField(dom, 1. / np.real(np.diag(A)))) if prec else None
@@ -184,10 +184,13 @@ def cg_run(ift, rng, n, cond, cplx, prec, nreset, kind, level, limit, zero_start
         stn = names.get(st, str(st))
     except Exception as ex:
         err = "%s: %s" % (type(ex).__name__, str(ex)[:100])
-        return None, err, dict(n=n, cond=cond, cplx=cplx, prec=prec, nreset=nreset, kind=kind, level=level, limit=limit, zero_start=zero_start)
+        return None, err, dict(n=n, cond=cond, cplx=cplx, prec=prec, nreset=nreset, kind=kind, level=level, limit=limit, zero_start=zero_start, scale=scale)
     x = e.position.asnumpy()
     res = np.linalg.norm(A @ x - b)
-    truth = dict(criterion=True, consistent=True, hpd_ok=(stn != "ERROR"))
+    truth = dict(criterion=True, consistent=True, hpd_ok=(stn != "ERROR"), exact=True)
+    if stn == "CONVERGED" and events and events[-1]["status"] == "CONTINUE":
+        # the solver returned on its own: the documented reason is a recursive residual that vanishes EXACTLY, so the true residual is rounding only
+        truth["exact"] = bool(res <= 1e-10 * cond * np.linalg.norm(b) + 1e-300)
     at_limit = limit is not None and real_c._itcount >= limit
     if stn == "CONVERGED" and not at_limit and real_c._ccount >= level:
         # convergence by hits: for the gradient-norm criteria the TRUE residual must meet the tolerance (the recursive residual of
@@ -198,12 +201,12 @@ def cg_run(ift, rng, n, cond, cplx, prec, nreset, kind, level, limit, zero_start
         if kind == "gradnorm_rel" and res > tol * state["g0"] * (1 + 1e-6) + margin:
             truth["criterion"] = False
     val = (0.5 * np.vdot(x, A @ x) - np.vdot(b, x)).real
-    if not np.isclose(float(e.value), val, rtol=1e-8, atol=1e-9 * max(1., abs(val))):
+    if not np.isclose(float(e.value), val, rtol=1e-8, atol=1e-9 * max(scale ** 2, abs(val))):
         truth["consistent"] = False
     if not np.allclose(e.gradient.asnumpy(), A @ x - b, rtol=1e-6, atol=1e-9 * cond * np.linalg.norm(b)):
         truth["consistent"] = False
     events.append(dict(ev="ret", hit="?", status=stn, napply=0, curv="pos", **truth))
-    meta = dict(n=n, cond=cond, cplx=cplx, prec=prec, nreset=nreset, kind=kind, level=level, limit=limit, zero_start=zero_start, status=stn, residual=float(res), checks=len(events) - 1)
+    meta = dict(n=n, cond=cond, cplx=cplx, prec=prec, nreset=nreset, kind=kind, level=level, limit=limit, zero_start=zero_start, scale=scale, status=stn, residual=float(res), checks=len(events) - 1)
     return events, None, meta
 
 
@@ -280,8 +283,9 @@ def run(ctx):
         for kind in kinds:
             for level, limit, nreset in (((1, 400, 20), (3, 400, 3)) if q else ((1, 2000, 20), (3, 2000, 3), (2, 6, 2), (1, 2000, 1))):
                 zero_start = bool(rng.integers(0, 2))
+                scale = (1., 1e-5, 1., 1e3)[int(rng.integers(0, 4))]        # the magnitude of the right-hand side is not special
                 with quiet():
-                    ev, err, meta = cg_run(ift, rng, n, cond, cplx, prec, nreset, kind, level, limit, zero_start)
+                    ev, err, meta = cg_run(ift, rng, n, cond, cplx, prec, nreset, kind, level, limit, zero_start, scale)
                 ctx.case(("cg", n, cond, cplx, prec, kind, level, limit, nreset))
                 if err:
                     ctx.violation(dict(kind="cg-raises", controller=kind, zero_start=zero_start), "ConjugateGradient with %s controller raised %s (%s)" % (kind, err, meta), replay=dict(what="cg", **meta))
@@ -298,12 +302,19 @@ def run(ctx):
         for tid, l, clause in tv.propfail:
             meta = items[tid][1]
             ctx.violation(dict(kind="cg", clause=" ".join(clause.split(" ")[:3]), controller=meta["kind"]), "CG run %s: %s" % (meta, clause), replay=dict(what="cg", **meta))
-        for tid, name in tracemod.masked_truth(tv, traces, lambda t: {k: t[-1][k] for k in ("criterion", "consistent", "hpd_ok")}):
+        for tid, name in tracemod.masked_truth(tv, traces, lambda t: {k: t[-1][k] for k in ("criterion", "consistent", "hpd_ok", "exact")}):
             meta = items[tid][1]
             ctx.violation(dict(kind="cg", clause=name, controller=meta["kind"]), "CG run %s: ground truth '%s' is false (and the run is not a behaviour of the skeleton)" % (meta, name), replay=dict(what="cg", **meta))
         for tid in tv.rejected:
-            if not any(t == tid for t, _, _ in tv.propfail):
-                ctx.add_drift("CG run %s: event %d %r is not a behaviour of the transcribed skeleton" % (items[tid][1], tv.maxl[tid] + 1, traces[tid][tv.maxl[tid]]))
+            bad = traces[tid][tv.maxl[tid]]
+            if bad["ev"] == "check" and bad["status"] == "CONVERGED":
+                # TLC tried every resolution of the '?' hits: in none of them the counter model (ConvergedLaw) allows CONVERGED here
+                meta = items[tid][1]
+                ctx.violation(dict(kind="cg", clause="converged-without-hits", controller=meta["kind"]),
+                              "CG run %s: the controller reported CONVERGED at check %d without %d consecutive hits of its documented criterion and below the iteration limit (hits so far %s)" % (
+                                  meta, tv.maxl[tid], meta["level"], [e["hit"] for e in traces[tid][:tv.maxl[tid] + 1]]), replay=dict(what="cg", **meta))
+            elif not any(t == tid for t, _, _ in tv.propfail):
+                ctx.add_drift("CG run %s: event %d %r is not a behaviour of the transcribed skeleton" % (items[tid][1], tv.maxl[tid] + 1, bad))
     any_ = next(iter(groups.values()))[0]
     ctx.sample(dict(run=any_[1], events=any_[0][:4] + any_[0][-1:]))
     inversion(ctx, ift, rng, q)
@@ -314,7 +325,7 @@ def run(ctx):
 def selftest(ctx):
     good = [dict(ev="check", hit="F", status="CONTINUE", napply=1, curv="pos"), dict(ev="check", hit="F", status="CONTINUE", napply=1, curv="pos"),
             dict(ev="check", hit="T", status="CONVERGED", napply=1, curv="pos"),
-            dict(ev="ret", hit="?", status="CONVERGED", napply=0, curv="pos", criterion=True, consistent=True, hpd_ok=True)]
+            dict(ev="ret", hit="?", status="CONVERGED", napply=0, curv="pos", criterion=True, consistent=True, hpd_ok=True, exact=True)]
     early = [dict(good[0]), dict(good[1], status="CONVERGED"), dict(good[3])]           # convergence reported without a hit
     untrue = good[:3] + [dict(good[3], criterion=False)]
     tv = tracemod.validate(ctx, "ControllerCGTrace", [good, early, untrue], cfg=CFG % (1, lim(None), 20, "TRUE", 1000, "FALSE") + "SPECIFICATION TSpec\nCONSTRAINT Progress\nPOSTCONDITION Report\n", label="selftest")
@@ -335,7 +346,7 @@ def replay(ctx, doc):
         inversion(ctx, ift, rng, True)
     elif c.get("what") == "cg":
         with quiet():
-            ev, err, meta = cg_run(ift, rng, c["n"], c["cond"], c["cplx"], c["prec"], c["nreset"], c["kind"], c["level"], c["limit"], c["zero_start"])
+            ev, err, meta = cg_run(ift, rng, c["n"], c["cond"], c["cplx"], c["prec"], c["nreset"], c["kind"], c["level"], c["limit"], c["zero_start"], c.get("scale", 1.))
         if err:
             ctx.violation(dict(kind="cg-raises", controller=c["kind"], zero_start=c["zero_start"]), "ConjugateGradient raised %s" % err, replay=c)
         else:
@@ -343,6 +354,8 @@ def replay(ctx, doc):
             tv = tracemod.validate(ctx, "ControllerCGTrace", [ev], cfg=CFG % (c["level"], lim(c["limit"]), c["nreset"], B(fch), 100000, "FALSE") + "SPECIFICATION TSpec\nCONSTRAINT Progress\nPOSTCONDITION Report\n", label="replay")
             for tid, l, clause in tv.propfail:
                 ctx.violation(dict(kind="cg", controller=c["kind"]), clause, replay=c)
+            if tv.rejected and ev[tv.maxl[0]]["ev"] == "check" and ev[tv.maxl[0]]["status"] == "CONVERGED":
+                ctx.violation(dict(kind="cg", clause="converged-without-hits", controller=c["kind"]), "CONVERGED reported without the required hits", replay=c)
     ctx.case("replay")
     ctx.case("replay2")
     ctx.sample(dict(replayed=c))
